@@ -123,8 +123,7 @@ Definition process_packet (ovf : bool) (c : ctx) (p : list N) (buf : list N)
                   pre <-- rlift (slice p 0 lm1) ;;
                   p9 <-- rlift (slice_from p 9) ;;
                   cr <-- get_mctp_control_packet p9 (pec pre) ;;
-                  (* MCTPSMBusPacket::new(..) -> finalise(): (len as u8) - 4 *)
-                  _ <-- rlift (finalise ovf sh (packet_len (Some (firstn (cr_off cr) p9)) (cr_data cr))) ;;
+                  (* MCTPSMBusPacket::new(..) -> finalise() only rewrites the local copy of the SMBus header *)
                   ok cr in
               match r with
               | Panic k => ((c, buf), Panic k)
@@ -145,6 +144,8 @@ Definition process_packet (ovf : bool) (c : ctx) (p : list N) (buf : list N)
           end
       | VendorDefinedPCI => ((c, buf), ok ((mt, payload_rng), None))
       | VendorDefinedIANA => ((c, buf), ok ((mt, payload_rng), None))
+      | SpdmOverMctp => ((c, buf), ok ((mt, payload_rng), None))
+      | SecuredMessages => ((c, buf), ok ((mt, payload_rng), None))
       | _ => ((c, buf), err MInvalid DUnknown)
       end
   end.
